@@ -102,14 +102,17 @@ class Acc:
 
 
 def _digest(packed: dict) -> str:
+    # time-limit verdicts ("hang") depend on machine load near the limit: they are reported as
+    # violations but are not part of the determinism self-test
+    timed = lambda k: '"mode": "hang"' in k  # noqa: E731
     return sha(
         {
             "cases": packed["cases"],
             "transitions": packed["transitions"],
             "validated": packed["validated"],
             "nontrivial": packed["nontrivial"],
-            "fails": sorted(packed["fail_counts"].items()),
-            "outcomes": packed["outcomes"],
+            "fails": sorted((k, n) for k, n in packed["fail_counts"].items() if not timed(k)),
+            "outcomes": sorted(o for o in packed["outcomes"] if "timeout" not in str(o)),
         },
         16,
     )
